@@ -128,6 +128,21 @@ def work(job: Tuple[int, Dict[str, bytes], str, bool]) -> Dict[str, Any]:
             signal.setitimer(signal.ITIMER_REAL, 0)
         out["t_parse"] = time.time() - t0
         if proto is not None and render:
+            # the linter is part of every compilation unless -q is given: it must not fail either
+            signal.setitimer(signal.ITIMER_REAL, TIMEOUT_S)
+            try:
+                import contextlib
+                import io
+
+                from bitproto.linter import lint
+
+                with contextlib.redirect_stderr(io.StringIO()):
+                    lint(proto)
+                out["render"]["lint"] = ("ok", "", "")
+            except BaseException as e:  # noqa: BLE001
+                out["render"]["lint"] = classify_exc(e)
+            finally:
+                signal.setitimer(signal.ITIMER_REAL, 0)
             out["empty_enum"] = has_empty_enum(proto)
             out["depth"] = nesting_depth(proto)
             for lang, opt in (("c", False), ("go", False), ("py", False), ("c", True), ("go", True)):
